@@ -748,7 +748,9 @@ class Request(interfaces.Request, BaseUnicastRequest):
 
         # variable names from RFC7641 Section 3.4
         v1 = first_event.message.opt.observe
-        t1 = time.time()
+        # (a monotonic clock: what counts is elapsed time, which steps of the
+        # wall clock must not distort)
+        t1 = time.monotonic()
 
         while True:
             # We don't really support cancellation of observations yet (see
@@ -782,7 +784,7 @@ class Request(interfaces.Request, BaseUnicastRequest):
             if next_event.message.opt.observe is not None:
                 # check for reordering
                 v2 = next_event.message.opt.observe
-                t2 = time.time()
+                t2 = time.monotonic()
 
                 is_recent = (
                     (v1 < v2 and v2 - v1 < 2**23)
